@@ -31,6 +31,9 @@ type vpLeaderScn struct {
 }
 
 // vpLeadingInstance builds one election through the real constructor, starts it and lets it win.
+// vpCbTemplate: callbacks object (with its blocking behaviour preset) used by the next vpLeadingInstance
+var vpCbTemplate *vpCallbacks
+
 func vpLeadingInstance(tm vpTiming, lat time.Duration, mod func(cfg *ElectionConfig)) *vpLeaderScn {
 	s := &vpLeaderScn{H: tm.H, to: vpUpdateTimeout(tm.H), demoted: make(chan struct{}, 4)}
 	s.st = vpNewStore("g", tm.TTL)
@@ -43,6 +46,10 @@ func vpLeadingInstance(tm vpTiming, lat time.Duration, mod func(cfg *ElectionCon
 	}
 	s.e = vpMustNew(&vpProvider{s.kv}, cfg)
 	s.cb = &vpCallbacks{}
+	if vpCbTemplate != nil {
+		s.cb = vpCbTemplate
+		vpCbTemplate = nil
+	}
 	s.cb.onDemoteFn = func() { s.demoted <- struct{}{} }
 	s.cb.install(s.e)
 	sctx := vpRootCtx()
